@@ -72,10 +72,10 @@ fn module(prop: &str) -> PropModule {
             std::process::exit(3);
         }
         "C08" => c08::module(),
-        "C01" => PropModule { coq_module: "Check_Norm", runner: "Check_Norm.run_C01", generate: |r, t| libgen::generate_mixed(r, t, 320), execute: lib_stage::execute, label: libgen::label },
-        "C02" => PropModule { coq_module: "Check_Norm", runner: "Check_Norm.run_C02", generate: |r, t| libgen::generate_mixed(r, t, 320), execute: lib_stage::execute, label: libgen::label },
-        "C06" => PropModule { coq_module: "Check_Norm", runner: "Check_Norm.run_C06", generate: |r, t| libgen::generate_mixed(r, t, 320), execute: lib_stage::execute, label: libgen::label },
-        "C07" => PropModule { coq_module: "Check_Norm", runner: "Check_Norm.run_C07", generate: |r, t| libgen::generate_mixed(r, t, 320), execute: lib_stage::execute, label: libgen::label },
+        "C01" => PropModule { coq_module: "Check_RR", runner: "Check_RR.run_C01", generate: |r, t| libgen::generate_mixed(r, t, 320), execute: lib_stage::execute, label: libgen::label },
+        "C02" => PropModule { coq_module: "Check_RR", runner: "Check_RR.run_C02", generate: |r, t| libgen::generate_mixed(r, t, 320), execute: lib_stage::execute, label: libgen::label },
+        "C06" => PropModule { coq_module: "Check_RR", runner: "Check_RR.run_C06", generate: |r, t| libgen::generate_mixed(r, t, 320), execute: lib_stage::execute, label: libgen::label },
+        "C07" => PropModule { coq_module: "Check_RR", runner: "Check_RR.run_C07", generate: |r, t| libgen::generate_mixed(r, t, 320), execute: lib_stage::execute, label: libgen::label },
         "NORM" => PropModule { coq_module: "Check_Norm", runner: "Check_Norm.run_norm_explore", generate: |r, t| libgen::generate_mixed(r, t, 400), execute: lib_stage::execute, label: libgen::label },
         "HIST" => PropModule { coq_module: "Check_Hist", runner: "Check_Hist.run_HIST", generate: |r, t| hist_stage::generate(r, t, 120), execute: hist_stage::execute, label: hist_stage::label },
         "C20" => PropModule { coq_module: "Check_Hist", runner: "Check_Hist.run_C20", generate: |r, t| hist_stage::generate(r, t, 120), execute: hist_stage::execute, label: hist_stage::label },
